@@ -21,8 +21,10 @@ type cacheStream struct{}
 
 func init() { register(cacheStream{}) }
 
-func (cacheStream) Name() string          { return "cache" }
-func (cacheStream) TrivialTags() []string { return []string{"dirs1", "dirs2", "dirs3", "dirs4", "items0", "req0"} }
+func (cacheStream) Name() string { return "cache" }
+func (cacheStream) TrivialTags() []string {
+	return []string{"dirs1", "dirs2", "dirs3", "dirs4", "items0", "req0"}
+}
 
 const cacheRoot = "/tmp/cdi-verif-cache"
 
